@@ -167,7 +167,7 @@ def judge(case, c: D.Campaign, viol, info):
             if state in CONCLUSIVE:
                 flaws = [w for w, bad in (("no-end", end is None), ("cancellable", cancellable), ("forcible", forcible)) if bad]
                 if flaws:      # one signature per item state and combination of flaws (one root cause usually sets several)
-                    older = [o for o in items if o[1] == name and o[0] != _id and o[2] == "started" and o[3] < start]
+                    older = [o for o in items if o[1] == name and o[0] != _id and o[2] not in CONCLUSIVE and o[3] < start]
                     sig = "conclusive:%s:%s" % (state, "+".join(flaws))
                     if older and "no-end" not in flaws:
                         # mechanism: an earlier invocation of the same instruction never concluded while this newer one is conclusive
@@ -176,7 +176,7 @@ def judge(case, c: D.Campaign, viol, info):
                     viol(sig, "tick %d: item %r (id ..%s) is %s but %s"
                          % (r.no, name, _id[-4:], state, ", ".join({"no-end": "has no end time", "cancellable": "is still cancellable",
                                                                     "forcible": "is still forcible"}[w] for w in flaws)
-                            + ("; an earlier invocation (id ..%s) is still 'started'" % older[0][0][-4:] if older else "")))
+                            + ("; an earlier invocation (id ..%s) never concluded" % older[0][0][-4:] if older else "")))
         # non-triviality
         kinds = {it[1].split(":")[0] for it in items}
         if len(items) >= 5 and len(kinds) >= 3 and (kinds & {"Watch", "Alarm"} or any(it[2] in ("failed", "cancelled") for it in items)):
